@@ -336,6 +336,74 @@ pub fn run(ctx: &Ctx) {
     });
 }
 
+/// connection churn: `m` connections, each new, each leaving `pkts` segments of state behind, on one analyzer of capacity `cap`
+pub fn measure_churn(kind: Kind, shape: Shape, m: usize, pkts: usize, cap: usize, seed: u64) -> Vec<i64> {
+    let mut a = match kind {
+        Kind::Tcp => A::Tcp(ttl_cache::TtlCache::new(cap)),
+        Kind::Http => A::Http(HttpState::new(cap)),
+        Kind::Tls => A::Tls(TlsState::new(cap)),
+        Kind::Unified => A::Unified(huginn_net::HuginnNet::new(Some(drive::default_db()), cap, None).expect("unified")),
+    };
+    {
+        let mut w = ShapeGen::new(Shape::ExchangeThenEndlessResponse, 60000, 64, 1);
+        let mut wa = A::Unified(huginn_net::HuginnNet::new(Some(drive::default_db()), 4, None).expect("unified"));
+        for _ in 0..4 {
+            let f = w.next();
+            feed(&mut wa, &f);
+        }
+        let _ = crate::props::c15::arc_db();
+    }
+    let mut live = Vec::with_capacity(m);
+    let base = alloc::live();
+    for i in 0..m {
+        crate::engine::watchdog_touch();
+        let mut g = ShapeGen::new(shape, (i % 60000) as u16, 200, seed);
+        for _ in 0..pkts {
+            let f = g.next();
+            drive::set_clock(Some(1_000_000 + i as u64 * 7));
+            feed(&mut a, &f);
+        }
+        live.push(alloc::live() - base);
+    }
+    drive::set_clock(None);
+    live
+}
+
+pub fn run_churn(ctx: &Ctx) {
+    let m = ctx.tier.pick(30_000usize, 59_000);
+    // (analyzer, shape, segments per connection): each connection leaves per-connection state behind and never finishes
+    let combos: Vec<(Kind, Shape, usize)> = vec![
+        (Kind::Tcp, Shape::TimestampedAcks, 2),
+        (Kind::Tcp, Shape::HttpHeadNeverCompletes, 1),
+        (Kind::Unified, Shape::TimestampedAcks, 2),
+        (Kind::Http, Shape::HttpHeadNeverCompletes, 2),
+        (Kind::Unified, Shape::HttpHeadNeverCompletes, 2),
+        (Kind::Tls, Shape::HugeDeclaredRecord, 2),
+        (Kind::Unified, Shape::HugeDeclaredRecord, 2),
+    ];
+    let caps = [1usize, 16, 100];
+    ctx.run_indexed(
+        "connection-churn",
+        "M new connections (quick 30000, thorough 59000), each leaving per-connection state behind (timestamped segments for the uptime tracker, an unfinished HTTP head, an unfinished TLS record) and never finishing, on one analyzer of capacity 1 / 16 / 100; oracle: counting allocator - retained bytes stay below capacity x 96 KiB + 64 KiB and do not grow between the first quarter and the end of the history (beyond 64 KiB); non-trivial: every configuration",
+        true,
+        (combos.len() * caps.len()) as u64,
+        |i, st| {
+            let (k, s, pkts) = combos[i as usize % combos.len()];
+            let cap = caps[i as usize / combos.len()];
+            st.evals += 1;
+            st.nontrivial(&(k, s, cap));
+            let live = measure_churn(k, s, m, pkts, cap, ctx.seed);
+            let q = *live[m / 4 - 50..m / 4].iter().max().unwrap();
+            let e = *live[m - 50..].iter().max().unwrap();
+            let detail = format!("{m} connections, capacity {cap}: live bytes after a quarter {q}, at the end {e}");
+            st.sample(|| json!({"analyzer": format!("{:?}", k), "shape": format!("{:?}", s), "capacity": cap, "measured": detail}));
+            if e > q + 64 * 1024 || e > cap as i64 * 96 * 1024 + 64 * 1024 {
+                st.fail(Fail::new(format!("{:?}:{:?}:state-of-finished-or-evicted-connections-is-retained", k, s), detail), json!({"capacity": cap}));
+            }
+        },
+    );
+}
+
 pub fn replay(ctx: &Ctx, _sub: &str, _input: &serde_json::Value) -> Result<(), Fail> {
     let _ = ctx;
     Err(fail!("bad-replay", "C11 histories are deterministic functions of (analyzer, shape, N): re-run the check"))
